@@ -52,7 +52,10 @@ def cases(draw, tier):
     exact = draw(st.sampled_from([False, False, True]))
     # structural choices first, bulk data last (see strategies/data.py)
     fams = ["combined", "dense", "sparse", "intermediate"]
-    cpen = draw(st.sampled_from(fams + ["callable"]))
+    cpen = draw(st.sampled_from(fams + ["callable", "wrapping_callable"]))
+    if cpen == "wrapping_callable":
+        # a user penalty that calls a built-in one and scales what it got back *in place*
+        cpen = {"penalty": {"wrap": draw(st.sampled_from(["sparse", "dense", "combined"])), "factor": draw(st.sampled_from([0.5, 2.0, 0.25]))}}
     weak = None
     if cpen == "callable":
         # a lenient user penalty: anomalies are detected although no single column exceeds the sparse penalty
@@ -76,7 +79,7 @@ def cases(draw, tier):
             "X": None, "index": draw(D.index_spec()), "columns": draw(st.sampled_from(D.COLUMN_KINDS)),
             # how the data reach the detector: the same frame throughout; a frame fitted under the same labels in another
             # order; a buffer (array or frame) that held other data during an earlier predict and was refilled in place
-            "mode": draw(st.sampled_from(["same", "same", "permuted_labels", "refill_array", "refill_frame"])),
+            "mode": draw(st.sampled_from(["same", "same", "permuted_labels", "refill_array", "refill_frame", "revised", "repeated"])),
             "perm_seed": draw(st.integers(0, 10**6)),
             # one callable *object* passed for both penalties (the point penalty then has to be evaluated with the point
             # saving's number of parameters, the collective one with the collective saving's)
@@ -154,6 +157,21 @@ def check(case):
             dense = det.transform(buf)
             if mode == "refill_array":
                 dense.columns = [f"labels_{c}" for c in df.columns]  # arrays carry default labels
+        elif mode in ("revised", "repeated"):
+            # the detector has seen an earlier version of the series (some interior rows were revised since - recalibration, an
+            # imputed gap), as another object; or it simply predicts several times
+            det.fit(df)
+            earlier = Xc.copy()
+            if mode == "revised":
+                # one or two readings inside the strongest event were different in the earlier version (a removed glitch)
+                r_ = int(np.argmax(np.abs(X).max(axis=1)))
+                for rr in ((r_, r_ + 1) if case["perm_seed"] % 2 else (r_,)):
+                    if 0 <= rr < n:
+                        earlier[rr] = earlier[rr][::-1] * 0
+            det.predict(pd.DataFrame(earlier, index=df.index.copy(), columns=cols))
+            det.transform(pd.DataFrame(earlier, index=df.index.copy(), columns=cols))
+            y = det.predict(df)
+            dense = det.transform(df)
         else:
             det.fit(df)
             y = det.predict(df)
@@ -230,7 +248,8 @@ def check(case):
         classes.append("same_callable_object_for_both_penalties")
     if case.get("counts_int64"):
         classes.append("int64_counts")
-    classes.append("c_pen=" + (params["collective_penalty"] if isinstance(params["collective_penalty"], str) else "callable"))
+    classes.append("c_pen=" + (params["collective_penalty"] if isinstance(params["collective_penalty"], str) else
+                               ("wrapping_callable" if "wrap" in params["collective_penalty"]["penalty"] else "callable")))
     classes.append("p_pen=" + (params["point_penalty"] if isinstance(params["point_penalty"], str) else "callable"))
     return {"nontrivial": proper, "classes": classes}
 
